@@ -27,6 +27,10 @@ import (
 // the JSON), 3 = harness trouble (watchdog, bad arguments, I/O).
 const exitTrouble = 3
 
+// detEnum is how many executions of a fault enumeration are folded into the
+// per-index determinism record.
+const detEnum = 20
+
 // Replay is the replay file: a run is a pure function of (script, params,
 // code), so this is all that is needed to reproduce it.
 type Replay struct {
@@ -67,26 +71,29 @@ type Stats struct {
 }
 
 var (
-	fProp     = flag.String("prop", "", "property id")
-	fSeed     = flag.Uint64("seed", 1, "batch seed (VERIF_SEED)")
-	fWorker   = flag.Int("worker", 0, "index of this worker")
-	fWorkers  = flag.Int("workers", 1, "number of workers; this one runs indices worker, worker+workers, ...")
-	fMaxRuns  = flag.Int("maxruns", 1<<30, "stop after this many runs of this worker")
-	fFrom     = flag.Uint64("from", 0, "first run index of the batch")
-	fDeadline = flag.Int64("deadline", 0, "unix time after which no new run is started")
-	fGate     = flag.String("gate", "chan", "hand-off gate: chan|pipe")
-	fLock     = flag.String("lock", "probe", "lock mode: probe|track")
-	fProcs    = flag.Int("procs", 1, "GOMAXPROCS")
-	fThorough = flag.Bool("thorough", false, "wider bounds")
-	fRaceLog  = flag.String("racelog", "", "log_path prefix given to the race runtime (race build)")
-	fHashes   = flag.String("hashes", "", "write (index, runhash, nontrivial) records here")
-	fDir      = flag.String("dir", "", "scratch directory")
-	fReplay   = flag.String("replay", "", "replay this file and print the outcome")
-	fShrink   = flag.String("shrink", "", "minimise this replay file in place")
-	fSub      = flag.Bool("subprocess", false, "with -shrink: one process per candidate (needed for race reports)")
-	fBudget   = flag.Int("budget", 1500, "with -shrink: execution budget")
-	fSamples  = flag.Int("samples", 2, "rendered sample runs to keep")
-	fParams   = flag.String("params", "", "k=v,k=v extra parameters")
+	fProp      = flag.String("prop", "", "property id")
+	fSeed      = flag.Uint64("seed", 1, "batch seed (VERIF_SEED)")
+	fWorker    = flag.Int("worker", 0, "index of this worker")
+	fWorkers   = flag.Int("workers", 1, "number of workers; this one runs indices worker, worker+workers, ...")
+	fMaxRuns   = flag.Int("maxruns", 1<<30, "stop after this many runs of this worker")
+	fFrom      = flag.Uint64("from", 0, "first run index of the batch")
+	fDeadline  = flag.Int64("deadline", 0, "unix time after which no new run is started")
+	fGate      = flag.String("gate", "chan", "hand-off gate: chan|pipe")
+	fLock      = flag.String("lock", "probe", "lock mode: probe|track")
+	fProcs     = flag.Int("procs", 1, "GOMAXPROCS")
+	fThorough  = flag.Bool("thorough", false, "wider bounds")
+	fRaceLog   = flag.String("racelog", "", "log_path prefix given to the race runtime (race build)")
+	fHashes    = flag.String("hashes", "", "write (index, runhash, nontrivial) records here")
+	fDir       = flag.String("dir", "", "scratch directory")
+	fReplay    = flag.String("replay", "", "replay this file and print the outcome")
+	fShrink    = flag.String("shrink", "", "minimise this replay file in place")
+	fSub       = flag.Bool("subprocess", false, "with -shrink: one process per candidate (needed for race reports)")
+	fBudget    = flag.Int("budget", 1500, "with -shrink: execution budget")
+	fSamples   = flag.Int("samples", 2, "rendered sample runs to keep")
+	fParams    = flag.String("params", "", "k=v,k=v extra parameters")
+	fPlanCap   = flag.Int("plancap", 1500, "fault enumeration: beyond this many fault plans per base, sample")
+	fEnumLimit = flag.Int("enumlimit", 0, "fault enumeration: execute only the first N plans per base (determinism re-runs)")
+	fGrace     = flag.Int("grace", 5, "seconds past the deadline an ongoing enumeration may use")
 )
 
 func trouble(format string, a ...any) {
@@ -268,8 +275,13 @@ func doBatch() {
 			trouble("%v", err)
 		}
 		defer hashOut.Close()
+		// executions of an enumeration go to a second file: they count for
+		// "distinct" but are not part of the per-index determinism record
+		if distinctOut, err = os.Create(*fHashes + ".enum"); err != nil {
+			trouble("%v", err)
+		}
+		defer distinctOut.Close()
 	}
-	var hbuf []byte
 	start := time.Now()
 	for k := 0; k < *fMaxRuns; k++ {
 		if *fDeadline > 0 && time.Now().Unix() >= *fDeadline {
@@ -280,54 +292,74 @@ func doBatch() {
 		ch := core.NewChooser(seed)
 		ch.KeepLabels = false
 		e.KeepTrace = len(st.Samples) < *fSamples
+		e.Params = map[string]int{}
+		e.Memo = map[string]any{}
 		out := execute(run, ch, e)
 		st.Runs++
-		st.Evals += int64(out.Evals)
-		st.Steps += int64(out.Steps)
-		if out.Invalid {
-			st.Invalid++
-			if len(st.InvalidWhy) < 3 {
-				st.InvalidWhy = append(st.InvalidWhy, fmt.Sprintf("run %d: %s", idx, firstLines(out.InvalidReason, 6)))
+		// the per-index determinism record covers the base execution and
+		// the first detEnum executions of its fault enumeration
+		recHash, recNT := out.RunHash, out.Nontrivial
+		stop := account(st, hll, e, idx, out, ch.Values(), nil)
+		if stop {
+			break
+		}
+		// fault enumeration: re-execute the same choice log once per fault
+		// plan; past the end of the log the PRNG stream of the base run
+		// continues (the Chooser advances it on scripted draws too)
+		complete := true
+		if len(out.FaultPlans) > 0 {
+			plans := out.FaultPlans
+			st.Probes["bases"]++
+			// a seeded order, the same whatever the cap, so that the first
+			// detEnum executions are the same in every phase
+			pr := core.NewXoshiro(seed ^ 0xfa017)
+			for i := len(plans) - 1; i > 0; i-- {
+				j := pr.Intn(i + 1)
+				plans[i], plans[j] = plans[j], plans[i]
 			}
-			continue
-		}
-		if out.Nontrivial {
-			st.Nontrivial++
-		}
-		for k, v := range out.Probes {
-			if strings.HasPrefix(k, "max_") {
-				if v > st.Probes[k] {
-					st.Probes[k] = v
-				}
+			if capN := *fPlanCap; len(plans) > capN {
+				// beyond the bound: a seeded sample of the fault plans
+				st.Probes["bases_fault_plans_sampled"]++
+				plans = plans[:capN]
 			} else {
-				st.Probes[k] += v
+				st.Probes["bases_fault_plans_enumerated_exhaustively"]++
+			}
+			base := ch.Values()
+			for pi, fp := range plans {
+				if *fEnumLimit > 0 && pi >= *fEnumLimit {
+					break
+				}
+				if *fDeadline > 0 && time.Now().Unix() >= *fDeadline+int64(*fGrace) {
+					st.Probes["enumerations_cut_by_deadline"]++
+					complete = complete && pi >= detEnum
+					break
+				}
+				sc := core.NewScripted(base, &seed)
+				sc.KeepLabels = false
+				e.Params = fp
+				e.KeepTrace = len(st.Samples) < *fSamples
+				o2 := execute(run, sc, e)
+				if pi < detEnum {
+					recHash = recHash*1099511628211 ^ o2.RunHash
+				}
+				if account(st, hll, e, idx, o2, sc.Values(), distinctOut) {
+					stop = true
+					break
+				}
+			}
+			if stop {
+				break
 			}
 		}
-		for k, v := range out.Faults {
-			st.Faults[k] += v
-		}
-		for _, s := range out.States {
-			hll.Add(s)
-		}
-		if e.KeepTrace && out.Sample != nil && out.Nontrivial {
-			out.Sample["run_index"] = idx
-			st.Samples = append(st.Samples, out.Sample)
-		}
-		if hashOut != nil {
-			hbuf = hbuf[:0]
+		if hashOut != nil && complete {
+			var hbuf []byte
 			hbuf = binary.LittleEndian.AppendUint64(hbuf, idx)
-			hbuf = binary.LittleEndian.AppendUint64(hbuf, out.RunHash)
+			hbuf = binary.LittleEndian.AppendUint64(hbuf, recHash)
 			nt := byte(0)
-			if out.Nontrivial {
+			if recNT {
 				nt = 1
 			}
-			hbuf = append(hbuf, nt)
-			hashOut.Write(hbuf)
-		}
-		if out.Violation != nil {
-			st.Violation = &Replay{Property: *fProp, Gate: *fGate, Lock: *fLock, Race: raceEnabled, Thorough: *fThorough, Procs: *fProcs,
-				Seed: *fSeed, Run: idx, Script: ch.Values(), Params: e.Params, Class: out.Violation.Class, Detail: out.Violation.Detail, Go: runtime.Version()}
-			break
+			hashOut.Write(append(hbuf, nt))
 		}
 		if k%64 == 63 {
 			runtime.GC()
@@ -336,6 +368,64 @@ func doBatch() {
 	st.HLL = hll.Reg
 	st.WallS = time.Since(start).Seconds()
 	json.NewEncoder(os.Stdout).Encode(st)
+}
+
+// account folds one execution into the batch statistics; it returns true if
+// the batch must stop (a violation was found).
+func account(st *Stats, hll *core.HLL, e *props.Env, idx uint64, out *props.Outcome, values []int, hashOut *os.File) bool {
+	st.Evals += int64(out.Evals)
+	st.Steps += int64(out.Steps)
+	if out.Invalid {
+		st.Invalid++
+		if len(st.InvalidWhy) < 3 {
+			st.InvalidWhy = append(st.InvalidWhy, fmt.Sprintf("run %d: %s", idx, firstLines(out.InvalidReason, 6)))
+		}
+		return false
+	}
+	if out.Nontrivial {
+		st.Nontrivial++
+	}
+	for k, v := range out.Probes {
+		if strings.HasPrefix(k, "max_") {
+			if v > st.Probes[k] {
+				st.Probes[k] = v
+			}
+		} else {
+			st.Probes[k] += v
+		}
+	}
+	for k, v := range out.Faults {
+		st.Faults[k] += v
+	}
+	for _, s := range out.States {
+		hll.Add(s)
+	}
+	if e.KeepTrace && out.Sample != nil && out.Nontrivial {
+		out.Sample["run_index"] = idx
+		st.Samples = append(st.Samples, out.Sample)
+	}
+	if hashOut != nil {
+		// record for the exact distinct count (the determinism record of the
+		// index is written by the caller)
+		var hbuf []byte
+		hbuf = binary.LittleEndian.AppendUint64(hbuf, idx)
+		hbuf = binary.LittleEndian.AppendUint64(hbuf, out.RunHash)
+		nt := byte(0)
+		if out.Nontrivial {
+			nt = 1
+		}
+		hashOut.Write(append(hbuf, nt))
+	}
+	if out.Violation != nil {
+		params := map[string]int{}
+		for k, v := range e.Params {
+			params[k] = v
+		}
+		st.Violation = &Replay{Property: *fProp, Gate: *fGate, Lock: *fLock, Race: raceEnabled, Thorough: *fThorough, Procs: *fProcs,
+			Seed: *fSeed, Run: idx, Script: values, Params: params, Class: out.Violation.Class, Detail: out.Violation.Detail, Go: runtime.Version()}
+		return true
+	}
+	return false
 }
 
 func firstLines(s string, n int) string {
